@@ -213,7 +213,8 @@ theorem lctx_names {a : Arch} {ls : Layers} {r : LRuleSpec} (hw : ArchWF a) (hd 
     obtain ⟨l, hl, _, h2⟩ := get_of_any ls on (hd.obj hany on hon).1
     rw [h2]; exact hd.ne l hl
   have hsubId : ∀ l' ∈ ls, ∃ l ∈ ls, l.1 = l'.1 ∧ (l'.2 = l.2 ∨ l'.2 = []) := fun l' hl' => ⟨l', hl', rfl, .inl rfl⟩
-  refine ⟨?_, ?_, ?_, ?_, fun _ => Iff.rfl, ?_, ?_, ?_, hsne, ?_, hobjne, ?_⟩
+  refine ⟨?_, ?_, ?_, ?_, fun _ => Iff.rfl, ?_, ?_, ?_, hsne, ?_, hobjne, ?_,
+    consistent_of_unrelMap ls hd.unrel (fun l hl x hx => hw.nwf x (hd.nodes l hl x hx))⟩
   · intro n hn
     exact layerOf_correct ls hd.unrel (fun l hl x hx => hw.nwf x (hd.nodes l hl x hx)) n (hw.nwf n hn)
   · intro n
@@ -282,7 +283,8 @@ theorem layer_reduce_names (mt : Str → Str → Bool) (a : Arch) (g : PGraph St
     rw [hS]; simpa using c.sne
   rw [assertAppliesLayer_compile mt g _ r hsne ?_ hany ?_]
   · rw [hobjs, hS]
-    rw [matchLayerRule_eq mt g _ _ _ _ _ _ _ (convertFilters_map mt g.nodes _) (convertFilters_map mt g.nodes _)]
+    rw [matchLayerRule_eq mt g _ _ _ _ _ _ _ (convertFilters_map mt g.nodes _) (convertFilters_map mt g.nodes _)
+      (by rw [updateLayerMap_names]; exact c.cons)]
     rw [updateLayerMap_names]
   · cases h : r.anything
     · right
